@@ -116,6 +116,7 @@ func init() {
 		os.WriteFile(gdir+"/Coeffs.v", []byte(v.String()), 0o644)
 		c.res.GenFiles = []string{"Coeffs.v"}
 
+		firstCallsCheck(c, "C03")
 		rng := c.rng
 		for _, s := range xyzSpaces {
 			to, from := probeSpace(s)
